@@ -10,7 +10,6 @@ package keeper
 //@   assigns \nothing
 
 //@ func (Keeper) IncreaseNextL1Sequence
-//@   requires NextL1Sequence < 18446744073709551614                                               // A-CTR
 //@   ensures err == nil && ret0 == seqOr1(old(NextL1Sequence))                                    // C06: returns_next
 //@   ensures NextL1Sequence == ret0 + 1                                                           // C06: bumps_by_one
 //@   assigns NextL1Sequence
@@ -20,7 +19,6 @@ package keeper
 //@   assigns \nothing
 
 //@ func (Keeper) IncreaseNextL2Sequence
-//@   requires NextL2Sequence < 18446744073709551614                                               // A-CTR
 //@   ensures err == nil && ret0 == seqOr1(old(NextL2Sequence))                                    // C09: returns_next
 //@   ensures NextL2Sequence == ret0 + 1                                                           // C09: bumps_by_one
 //@   assigns NextL2Sequence
@@ -59,7 +57,6 @@ package keeper
 //@   let a := req.Amount.Amount
 //@   let sender := addrBytes(1, req.Sender)
 //@   let mod := moduleAddr("opchild")
-//@   requires NextL2Sequence < 18446744073709551614                                               // A-CTR
 //@   ensures err == nil ==> a > 0 && a < 18446744073709551616 && validDenom(d) && addrOK(1, req.Sender) && len(req.To) > 0     // C04: accepted_is_claimable
 //@   ensures err == nil ==> ret0.Sequence == seqOr1(old(NextL2Sequence)) && NextL2Sequence == ret0.Sequence + 1               // C09: next_gap_free_sequence
 //@   ensures err == nil ==> DenomPairs[d] != None                                                                              // C09: only_l1_tokens
@@ -94,8 +91,6 @@ package keeper
 //@   let executor := Params != None && (exists j int :: 0 <= j && j < len(val(Params).BridgeExecutors)
 //@        && addrOK(1, val(Params).BridgeExecutors[j]) && addrBytes(1, val(Params).BridgeExecutors[j]) == addrBytes(1, req.Sender))
 //@   let credited := transfer(old(bank.bal)[(mod, d) := old(bank.bal)[(mod, d)] + a], mod, to, d, a)
-//@   requires NextL1Sequence < 18446744073709551614 && NextL2Sequence < 18446744073709551614      // A-CTR
-//@   requires forall k `(Pair Bytes Bytes)` :: bank.bal[k] >= 0                                   // A-BANK: balances are never negative
 //@   ensures err == nil ==> valid && executor                                                     // C12: executor_only
 //@   ensures err == nil && req.Sequence < n ==> ret0.Result == NOOP                               // C06: stale_is_noop
 //@   ensures req.Sequence > n ==> err != nil                                                      // C06: ahead_is_rejected
